@@ -25,7 +25,7 @@ let opt_str = function A "-" -> None | a -> Some (str a)
 let request_of (req : t) (drv : t) : request =
   match req, drv with
   | L (A "req" :: m :: p :: depth :: ow :: _dest :: ctype :: im :: inm :: body :: _fail :: _pfb :: _cancel),
-    L [A "drv"; dk; dp; dim; dinm; pff; stamp; dirtag; bfails; L (A "mime" :: mt); sniffed] ->
+    L [A "drv"; dk; dp; dim; dinm; pff; stamp; dirtag; bfails; L (A "mime" :: mt); sniffed; _wlimit] ->
     { meth = str m; rpath = str p; h_depth = str depth; h_overwrite = str ow;
       h_dest = (match dk with A "absent" -> DestAbsent | A "bad" -> DestBad | A "path" -> DestPath (str dp) | _ -> raise (Parse_error "dest"));
       h_ctype = str ctype; h_if_match = str im; h_if_none_match = str inm;
